@@ -2944,12 +2944,21 @@ func (w *worker) assignUnqueuedTaskAndWakeUp(bq *InMemoryBuildQueue, t *task, st
 // getExecutingSynchronizeResponse returns a synchronization response
 // that instructs a worker to start executing a task.
 func (w *worker) getExecutingSynchronizeResponse(bq *InMemoryBuildQueue) *remoteworker.SynchronizeResponse {
-	t := w.currentTask
+	return w.currentTask.getExecutingSynchronizeResponse(bq)
+}
+
+// getExecutingSynchronizeResponse returns a synchronization response
+// that instructs a worker to start executing the task.
+//
+// The desired state is copied, as the response is marshaled after the
+// lock on the InMemoryBuildQueue has been released. The task's copy may
+// be altered in the meantime (e.g., scrubbed upon completion).
+func (t *task) getExecutingSynchronizeResponse(bq *InMemoryBuildQueue) *remoteworker.SynchronizeResponse {
 	return &remoteworker.SynchronizeResponse{
 		NextSynchronizationAt: bq.getNextSynchronizationAtDelay(),
 		DesiredState: &remoteworker.DesiredState{
 			WorkerState: &remoteworker.DesiredState_Executing_{
-				Executing: &t.desiredState,
+				Executing: proto.Clone(&t.desiredState).(*remoteworker.DesiredState_Executing),
 			},
 		},
 	}
@@ -3070,14 +3079,7 @@ func (w *worker) getCurrentOrNextTask(ctx context.Context, bq *InMemoryBuildQueu
 	if t := w.currentTask; t != nil {
 		if t.retryCount < bq.configuration.WorkerTaskRetryCount {
 			t.retryCount++
-			return &remoteworker.SynchronizeResponse{
-				NextSynchronizationAt: bq.getNextSynchronizationAtDelay(),
-				DesiredState: &remoteworker.DesiredState{
-					WorkerState: &remoteworker.DesiredState_Executing_{
-						Executing: &t.desiredState,
-					},
-				},
-			}, nil
+			return t.getExecutingSynchronizeResponse(bq), nil
 		}
 		t.complete(bq, &remoteexecution.ExecuteResponse{
 			Status: status.Newf(
